@@ -73,8 +73,8 @@ ASSUMPTIONS = [
     'INPUT; beyond 1e-6*scale (cond > ~4.5e6, resp. ~2.7e4) the case is inconclusive; measured honest error is < 1e-3 of that tolerance at every decade',
     'PSD input that is Hermitian only up to noise: numqi reads one triangle, the reference the Hermitian part; tolerance is widened by '
     '4*d*max|A-A^H|*|cotangent|max*max(1, lambda_min^-2) (second-derivative bound from the input)',
-    'custom (hand-differentiated) gates inside circuits are judged through the closure finite differences only; a TRAINABLE custom gate '
-    '(FractionalGroverOracle) is excluded: its parameter gradient is dropped by the reverse sweep (reported as GENUINE-DEFECT-CANDIDATE)',
+    'custom (hand-differentiated) gates inside circuits, incl. the trainable FractionalGroverOracle, are judged through the closure finite '
+    'differences only',
     'a numpy (non-tensor) initial state is accepted by the circuit forward but cannot be differentiated (torch rejects the state '
     'gradient returned for a non-tensor input); recorded as inconclusive, not judged',
 ]
